@@ -334,6 +334,16 @@ class Evaluator:
             return Const(len(v.items) > 0) if not v.unknown else App("truthy", (Sym("dict#%d" % id(v)),))
         if is_boolish(v):
             return v
+        if isinstance(v, App) and v.fn == "ite" and len(v.args) == 3:
+            c, a, b = v.args
+            ta, tb = self.truth(a), self.truth(b)
+            if ta == tb:
+                return ta
+            if ta == TRUE and tb == FALSE:
+                return c
+            if ta == FALSE and tb == TRUE:
+                return negate(c)
+            return disj([conj([c, ta]), conj([negate(c), tb])])
         if isinstance(v, Sym) and (v.tags & {"rng", "object", "callable", "positive", "nonempty_str", "fresh_rng"}):
             return TRUE
         if isinstance(v, V):
@@ -1476,6 +1486,9 @@ class Evaluator:
             self.pc.append((c, False))
             b = self.eval(e.orelse, fr)
             self.pc = saved
+            if isinstance(a, Tup) and isinstance(b, Tup) and type(a) is type(b) and len(a.items) == len(b.items) \
+                    and not any(isinstance(i, Star) for i in a.items + b.items) and all(isinstance(i, V) for i in a.items + b.items):
+                return type(a)([x if x == y else ite(c, x, y) for x, y in zip(a.items, b.items)])
             if isinstance(a, V) and isinstance(b, V):
                 return ite(c, a, b)
         if self.decide(c, e):
